@@ -537,6 +537,17 @@ mut("txn: rollback restores pairs that were never applied (revert of fix F20, se
 twin("txn: rollback guard written the other way round", ["R-TXN"],
      [(MU, "            if new_value.modeling_obj_container is not None and previous_value.modeling_obj_container is None:",
        "            if previous_value.modeling_obj_container is None and new_value.modeling_obj_container is not None:")])
+mut("noop: hourly == raises on another length (revert of fix F23)", ["R-NOOP"],
+    [(EO, """            if len(self.value) != len(other.value):
+                return False
+""", """            if len(self.value) != len(other.value):
+                raise ValueError("Can only compare ExplainableHourlyUsages with values of same length.")
+""")], ["__eq__ raises"])
+mut("mag: fixed instance count handed to np.full with its unit (revert of fix F22)", ["R-MAG"],
+    [("core/hardware/server_base.py", """                            np.full(len(self.raw_nb_of_instances),
+                                    self.fixed_nb_of_instances.to(u.dimensionless).magnitude),""",
+      """                            np.full(len(self.raw_nb_of_instances), self.fixed_nb_of_instances.value),""")],
+    ["on_premise_update_nb_of_instances"])
 mut("listsib: extend iterates its argument while appending (revert of fix F19)", ["R-LISTSIB"],
     [(LL, "        for value in list(values):\n            self.append(value)", "        for value in values:\n            self.append(value)")],
     ["extend", "snapshot"])
@@ -992,7 +1003,8 @@ twin("twin: on-premise branches inverted", ["R-PROV", "R-BOUND", "R-LABEL", "R-W
                 else:
                     fixed_nb_of_instances_df = pd.DataFrame(
                         {"value": pint_pandas.PintArray(
-                            np.full(len(self.raw_nb_of_instances), self.fixed_nb_of_instances.value),
+                            np.full(len(self.raw_nb_of_instances),
+                                    self.fixed_nb_of_instances.to(u.dimensionless).magnitude),
                             dtype=u.dimensionless
                         )},
                         index=self.raw_nb_of_instances.value.index
